@@ -122,7 +122,7 @@ Definition class_TokenBuffer : list (string * fclass) := [
   ("pages", State);            (* Reset: counts zeroed, re-sliced to [:0], first page re-added *)
   ("curPage", State);          (* Reset: nil, then addPage *)
   ("totalMB", Config);         (* Init only; = mbW*mbH, determined by the encoder's gate *)
-  ("mbStart", Scratch);        (* Init only (length totalMB+1); MarkMBStart writes before emit reads *)
+  ("mbStart", State);          (* token index at which each macroblock starts: EmitTokensPartitioned reads EVERY entry, but MarkMBStart is only called for macroblocks that record tokens (not for skipped ones); Reset fills it with -1 since fix f63046c (past leak) *)
   ("allPages", Scratch)        (* page cache: a reused page gets count = 0 in addPage; tokens beyond count are never read *)
 ].
 
@@ -150,7 +150,7 @@ Definition class_lossy_Decoder : list (string * fclass) := [
   ("filterType", State);
   ("fstrengths", Scratch);     (* precomputeFilterStrengths leaves FILevel/HevThresh stale when level = 0, but FLimit = 0 then stops doFilter before reading them; not read when filterType = 0 *)
   ("intraT", State);           (* initFrame: re-sliced from the cleared slab, filled with BDCPred *)
-  ("intraL", State);           (* left intra modes: read by the first parseIntraModeRow of a frame, written back by initScanline only at the END of each row *)
+  ("intraL", State);           (* left intra modes: read by the first parseIntraModeRow of a frame, written back by initScanline only at the END of each row; reset in acquireDecoder since fix fa3b99c (past leak after a failed decode) *)
   ("yuvT", State);             (* initFrame: clear / make *)
   ("mbInfo", State);           (* initFrame: clear / make *)
   ("fInfo", State);            (* initFrame: clear / make *)
@@ -168,10 +168,6 @@ Definition class_lossy_Decoder : list (string * fclass) := [
   ("AlphaData", External);     (* caller's bytes: nil-ed on acquire and release *)
   ("dcScratch", Scratch)       (* zero-filled in decodeMB before every use *)
 ].
-
-(** State fields of lossy.Decoder that the acquire path does NOT re-initialise on the
-    pinned tree (finding; see Properties/C11.v) *)
-Definition unreset_lossy_Decoder : list string := ["intraL"].
 
 (** internal/lossless/encode.go: Encoder (losslessEncoderPool) *)
 Definition class_lossless_Encoder : list (string * fclass) := [
